@@ -37,12 +37,14 @@ type cfg struct {
 	PartialAcks bool   `json:"partial_acks"` // ACKs that fall inside segments (ack division)
 	DupAcks     int    `json:"dup_acks"`
 	OwnISS      uint32 `json:"own_iss"`
+	LateMs      int    `json:"late_ms"`  // latewrite: pause between the ACK and the second write
+	Shutdown    bool   `json:"shutdown"` // silent: the write side is shut down right after the write (a FIN is queued behind the data)
 }
 
 func gen(seed int64, k int) cfg {
 	r := fw.NewRand(seed, "C05", "cfg", k)
 	c := cfg{K: k, V6: r.Chance(1, 5), Active: r.Chance(1, 3), TS: r.Bool(), SACK: r.Bool()}
-	c.Kind = []string{"silent", "fastrexmit", "fastrexmit", "cwnd"}[r.Intn(4)]
+	c.Kind = []string{"silent", "fastrexmit", "fastrexmit", "cwnd", "silent", "fastrexmit", "fastrexmit", "cwnd", "latewrite"}[r.Intn(9)]
 	c.CC = "reno"
 	if r.Chance(1, 4) {
 		c.CC = "cubic"
@@ -72,7 +74,12 @@ func gen(seed int64, k int) cfg {
 	case "cwnd":
 		c.Flight = 20 + r.Intn(200)
 		c.PartialAcks = r.Chance(1, 2)
+	case "latewrite":
+		c.Flight = 1 + r.Intn(3)
+		c.RTTus = []int{0, 50000, 300000, 600000}[r.Intn(4)]
+		c.LateMs = []int{100, 400, 600, 800, 900, 1100}[r.Intn(6)]
 	}
+	c.Shutdown = c.Kind == "silent" && r.Chance(1, 3)
 	return c
 }
 
@@ -160,10 +167,22 @@ func scenario(c cfg) {
 	timeoutDuringAcks := false
 	note := func(segs []rawpeer.Seg, ctx string) (data []txRec) {
 		for _, s := range segs {
-			if s.Err != nil || len(s.Payload) == 0 {
+			if s.Err != nil || (len(s.Payload) == 0 && !s.Has(rfc.FIN)) {
 				continue
 			}
 			rel := conn.RelSeq(s, maxEnd)
+			if len(s.Payload) == 0 {
+				// a bare FIN is a segment too: one unit of sequence space
+				if _, ok := segEnds[rel+1]; !ok {
+					segEnds[rel+1] = rel
+				}
+				if acksDelivered == 0 {
+					if n := len(segEnds); n > 10 {
+						viol("initial-window", fmt.Sprintf("%s: %d distinct segments (the last one a FIN) sent before the first ACK (limit 10)", ctx, n))
+					}
+				}
+				continue
+			}
 			rec := txRec{s.T, rel, len(s.Payload)}
 			log = append(log, rec)
 			data = append(data, rec)
@@ -226,6 +245,9 @@ func scenario(c cfg) {
 		conn.Take()
 	}
 	got, _, werr := conn.EP.Write(tcpip.SlicePayload(buf), tcpip.WriteOptions{})
+	if c.Shutdown {
+		conn.EP.Shutdown(tcpip.ShutdownWrite)
+	}
 	rawpeer.Settle()
 	first := note(conn.Take(), "after Write")
 	tr("write %d (accepted %d, %v) -> %d segments", total, got, werr, len(first))
@@ -269,6 +291,8 @@ func scenario(c cfg) {
 				rel := conn.RelSeq(s, maxEnd)
 				rex = append(rex, txRec{s.T, rel, len(s.Payload)})
 				byInstant[s.T]++
+			} else if s.Err == nil && s.Has(rfc.FIN) {
+				byInstant[s.T]++ // a FIN sent along with the retransmission is a second segment
 			}
 		}
 		note(segs, "during silence")
@@ -383,6 +407,47 @@ func scenario(c cfg) {
 			}
 			run.Count("timeouts_after_fast_retransmit_judged", int64(len(instants)))
 		}
+	case "latewrite":
+		// everything is acknowledged (after the configured delay), the application pauses and
+		// writes again, then the peer goes silent: whatever is retransmitted, no segment may be
+		// sent again sooner than 200 ms after its previous transmission
+		if maxEnd < total {
+			run.Count("latewrite_flight_not_fully_sent", 1)
+			return
+		}
+		sendAck(total, nil, "cumulative ACK of everything")
+		time.Sleep(time.Duration(c.LateMs) * time.Millisecond)
+		rawpeer.Settle()
+		note(conn.Take(), "pause before the second write")
+		more := make([]byte, mss)
+		for i := range more {
+			more[i] = tcpx.PByte(uint64(c.K), 0, total+int64(i))
+		}
+		conn.EP.Write(tcpip.SlicePayload(more), tcpip.WriteOptions{})
+		rawpeer.Settle()
+		var last = map[int64]time.Duration{}
+		for _, d := range note(conn.Take(), "after the second write") {
+			last[d.rel] = d.t
+		}
+		tr("second write at %v", last)
+		time.Sleep(10 * time.Second)
+		rawpeer.Settle()
+		nrex := 0
+		for _, d := range note(conn.Take(), "silence after the second write") {
+			if prev, ok := last[d.rel]; ok {
+				nrex++
+				if gap := d.t - prev; gap < 200*time.Millisecond {
+					viol("timeout/too-soon", fmt.Sprintf("the segment at offset %d, first sent %v after the connection's earlier data had been acknowledged and %d ms of pause, was retransmitted %v after its previous transmission (minimum 200 ms)", d.rel, prev, c.LateMs, gap))
+					return
+				}
+			}
+			last[d.rel] = d.t
+		}
+		if nrex == 0 {
+			viol("timeout/no-retransmission", "peer silent for 10 s after the second write: nothing was retransmitted")
+			return
+		}
+		run.Count("latewrite_retransmissions_judged", int64(nrex))
 	case "cwnd":
 		// the peer acknowledges promptly; sometimes inside segments (ack division)
 		for step := 0; step < 400 && highestAck < total && !bad; step++ {
